@@ -15,3 +15,7 @@ TEXT = {'technique': 'model-based stateful property testing (rapid): generated o
  'level_note': "Trusts the reference model in harness/fsmodel (DESIGN.md section 3) and rapid's generators; ops whose outcome the statement leaves "
                'open are skipped, error texts/order/times are never compared.',
  'design_ref': 'DESIGN.md 3, 4/C01'}
+
+# native coverage-guided campaign over the rapid generator (hx.FuzzRapid), thorough tier only
+CHECK['tiers']['thorough'].append({'test': '^$', 'fuzz': '^FuzzHistory$', 'fuzztime': '90s', 'gomaxprocs': 4, 'timeout': 400})
+TEXT['technique'] += '; thorough adds a native coverage-guided go fuzzing campaign over the same generator (rapid.MakeFuzz)'
